@@ -307,6 +307,13 @@ class ObjectWriter:
                 # we have a weakref, see weakref.py
 
                 oid = obj.oid
+                if oid is not None:
+                    target = getattr(obj, '_v_ob', None)
+                    if target is not None and target._p_oid != oid:
+                        # The reference remembers the oid an earlier,
+                        # aborted transaction had given the object; the
+                        # object was disowned since.  Forget the dead oid.
+                        oid = None
                 if oid is None:
                     target = obj()  # get the referenced object
                     oid = target._p_oid
